@@ -346,7 +346,14 @@ func rulesC08(p *Prog, r *Report) {
 			// BorrowAsset.AmountOut in this function (repayments carry interest on top), or the
 			// whole recorded principal when the borrow is deleted
 			if what == "UpdateBorrowStats" {
-				amts = append(append([]string{}, amts...), recordChangeKeys(p, fn, "BorrowAsset", "AmountOut")...)
+				rc := recordChangeKeys(p, fn, "BorrowAsset", "AmountOut")
+				if len(rc) > 0 {
+					// the function changes the recorded principal: the total must follow that
+					// change, not the coins moved (a repayment also carries interest)
+					amts = rc
+				} else {
+					amts = append([]string{}, amts...)
+				}
 				deletes := false
 				for _, c2 := range calls(fn) {
 					if p.callIs(c2, "DeleteBorrow") {
